@@ -3,6 +3,7 @@
 From Coq Require Import String ZArith List Bool QArith.
 From Coq Require Import Permutation Sorted.
 From HD Require Import Base.Val C19_Model C19_Proofs C19_Proofs_Ext C19_Proofs_Sess.
+From HD Require Import C19_Proofs_Vol C19_Proofs_Vol2 C19_Proofs_Vol3 C19_Proofs_Vol4.
 Import ListNotations.
 Open Scope Z_scope.
 
@@ -452,3 +453,208 @@ Example C19_example_session :
    VErr "IndexError"; VErr "ValueError"].
 Proof. exact session_example. Qed.
 Print Assumptions C19_example_session.
+
+(* ---- extension 4: sub-ranges of the volume read, maps with several channels --------------------- *)
+(* slice_start / slice_end on n volume positions: accepted exactly when no one-based number is 0, the
+   end designates a position of the axis or one beyond (py0 = the Python index meant by the argument
+   in the convention chosen, negatives from the end), and the window is not empty; then it is
+   Python's start:end window *)
+Theorem C19_slice_window : forall ss se n ai s e, 0 <= n ->
+  std_slice ss se n ai = Ok (s, e) <->
+  arg_ok ai ss /\ arg_ok ai se /\
+  s = pynorm n (match ss with None => 0 | Some x => py0 ai x end) /\
+  match se with
+  | None => e = n
+  | Some y => - n <= py0 ai y <= n /\ e = pynorm n (py0 ai y)
+  end /\
+  s < e.
+Proof. exact std_slice_ok. Qed.
+Print Assumptions C19_slice_window.
+
+Theorem C19_slice_index_error : forall ss se n ai, 0 <= n ->
+  std_slice ss se n ai = Err "IndexError" <->
+  arg_ok ai ss /\ arg_ok ai se /\
+  match se with None => False | Some y => py0 ai y < - n \/ n < py0 ai y end.
+Proof. exact std_slice_index_error. Qed.
+Print Assumptions C19_slice_index_error.
+
+Theorem C19_slice_error_kinds : forall ss se n ai k,
+  std_slice ss se n ai = Err k -> k = "ValueError"%string \/ k = "IndexError"%string.
+Proof. exact std_slice_err_kinds. Qed.
+Print Assumptions C19_slice_error_kinds.
+
+(* row_start / row_end (column_start / column_end) on an axis of n: accepted exactly when no one-based
+   number is 0, the start designates a row and the end a row or one beyond; every refusal is a
+   ValueError *)
+Theorem C19_axis_window : forall st en n ai s e, 0 < n ->
+  std_axis st en n ai = Ok (s, e) <->
+  arg_ok ai st /\ arg_ok ai en /\
+  match st with
+  | None => s = 0
+  | Some x => - n <= py0 ai x <= n - 1 /\ s = pynorm n (py0 ai x)
+  end /\
+  match en with
+  | None => e = n
+  | Some y => - n <= py0 ai y <= n /\ e = pynorm n (py0 ai y)
+  end.
+Proof. exact std_axis_ok. Qed.
+Print Assumptions C19_axis_window.
+
+Theorem C19_axis_error : forall st en n ai k, std_axis st en n ai = Err k -> k = "ValueError"%string.
+Proof. exact std_axis_err. Qed.
+Print Assumptions C19_axis_error.
+
+(* end to end: a sub-range request on the volume of a stored single-channel integer map that is
+   answered returns the window [s,e) x [r0,r1) x [c0,c1) of the full volume (sl, characterised by
+   C19_volume_roundtrip), the window being the one the arguments designate (C19_slice_window,
+   C19_axis_window); slice p of the answer sits at the position of slice s+p of the full volume, which
+   is the position given for some plane i, and its element (r, c) is pixel_array[i, r0+r, c0+c] *)
+Theorem C19_volume_subrange : forall get N R C w pos a nr nc out,
+  (forall i r c j, 0 <= get i r c j < 256 ^ Z.of_nat w) -> 0 < R -> 0 < C -> 0 <= N ->
+  length pos = Z.to_nat N ->
+  pm_volume_sub 0 (fun ws => Ok ws) R C 1 pos
+    (map (read_frame w R C (pm_bytes get N R C 1 w)) (zrange N)) a = Ok (nr, nc, out) ->
+  exists sl s e r0 r1 c0 c1,
+    pm_volume pos (map (read_frame w R C (pm_bytes get N R C 1 w)) (zrange N)) = Ok sl /\
+    std_slice (v_ss a) (v_se a) N (v_ai a) = Ok (s, e) /\ 0 <= s < e /\ e <= N /\
+    std_axis (v_rs a) (v_re a) R (v_ai a) = Ok (r0, r1) /\ 0 <= r0 < r1 /\ r1 <= R /\
+    std_axis (v_cs a) (v_ce a) C (v_ai a) = Ok (c0, c1) /\ 0 <= c0 < c1 /\ c1 <= C /\
+    nr = r1 - r0 /\ nc = c1 - c0 /\ length out = Z.to_nat (e - s) /\
+    forall p, 0 <= p < e - s ->
+      exists q i vals,
+        nth_error sl (Z.to_nat (s + p)) = Some (q, frame_words get R C i 0) /\
+        0 <= i < N /\ nth_error pos (Z.to_nat i) = Some q /\
+        nth_error out (Z.to_nat p) = Some (q, vals) /\
+        length vals = Z.to_nat ((r1 - r0) * (c1 - c0)) /\
+        forall r c, 0 <= r < r1 - r0 -> 0 <= c < c1 - c0 ->
+          nth_error vals (Z.to_nat (r * (c1 - c0) + c)) = Some (get i (r0 + r) (c0 + c) 0).
+Proof. exact volume_sub_roundtrip. Qed.
+Print Assumptions C19_volume_subrange.
+
+(* the same request with a transform (the real world value mapping): every slice of the window is
+   transformed as a whole frame, then cropped *)
+Theorem C19_volume_subrange_transformed : forall (m : mapping) R C pos frames a nr nc out,
+  pm_volume_sub 0%Q (apply_mapping m) R C 1 pos frames a = Ok (nr, nc, out) ->
+  exists sl s e r0 r1 c0 c1,
+    std_axis (v_rs a) (v_re a) R (v_ai a) = Ok (r0, r1) /\
+    std_axis (v_cs a) (v_ce a) C (v_ai a) = Ok (c0, c1) /\
+    pm_volume pos frames = Ok sl /\
+    std_slice (v_ss a) (v_se a) (Z.of_nat (length sl)) (v_ai a) = Ok (s, e) /\
+    0 <= s /\ r0 < r1 /\ c0 < c1 /\ nr = r1 - r0 /\ nc = c1 - c0 /\
+    Forall2 (fun pf o => exists v, apply_mapping m (snd pf) = Ok v /\
+                                   o = (fst pf, crop_frame 0%Q C r0 r1 c0 c1 v))
+            (firstn (Z.to_nat (e - s)) (skipn (Z.to_nat s) sl)) out.
+Proof. intros m. exact (volume_sub_transformed 0%Q (apply_mapping m)). Qed.
+Print Assumptions C19_volume_subrange_transformed.
+
+(* refusals: a map with several channels has several frames at every position and is never a volume
+   (RuntimeError, once rows and columns are acceptable); row/column refusals are ValueError and come
+   first; no other class than ValueError / IndexError / RuntimeError occurs *)
+Theorem C19_volume_multi_channel_refused : forall R C M pos frames a r0 r1 c0 c1,
+  1 < M -> pos <> [] ->
+  std_axis (v_rs a) (v_re a) R (v_ai a) = Ok (r0, r1) ->
+  std_axis (v_cs a) (v_ce a) C (v_ai a) = Ok (c0, c1) ->
+  pm_volume_sub 0 (fun ws => Ok ws) R C M pos frames a = Err "RuntimeError".
+Proof. exact (volume_sub_multi_channel 0 (fun ws => Ok ws)). Qed.
+Print Assumptions C19_volume_multi_channel_refused.
+
+Theorem C19_volume_subrange_axis_refused : forall R C M pos frames a k,
+  std_axis (v_rs a) (v_re a) R (v_ai a) = Err k \/
+  (exists rr, std_axis (v_rs a) (v_re a) R (v_ai a) = Ok rr) /\
+  std_axis (v_cs a) (v_ce a) C (v_ai a) = Err k ->
+  pm_volume_sub 0 (fun ws => Ok ws) R C M pos frames a = Err "ValueError".
+Proof. exact (volume_sub_axis_refused 0 (fun ws => Ok ws)). Qed.
+Print Assumptions C19_volume_subrange_axis_refused.
+
+Theorem C19_volume_subrange_error_kinds : forall R C M pos frames a k,
+  pm_volume_sub 0 (fun ws => Ok ws) R C M pos frames a = Err k ->
+  k = "ValueError"%string \/ k = "IndexError"%string \/ k = "RuntimeError"%string.
+Proof. exact volume_sub_error_kinds. Qed.
+Print Assumptions C19_volume_subrange_error_kinds.
+
+(* non-vacuity: 3 planes given out of order, 3 rows x 2 columns; the same window in both conventions;
+   each refusal class *)
+Example C19_example_volume_sub :
+  let get := fun i r c (j : Z) => 100 * i + 10 * r + c in
+  let pos := [[0; 0; 8]; [0; 0; 24]; [0; 0; 16]] in
+  let frames := map (read_frame 1 3 2 (pm_bytes get 3 3 2 1 1)) (zrange 3) in
+  let args := fun ss se rs re cs ce ai =>
+    {| v_ss := ss; v_se := se; v_rs := rs; v_re := re; v_cs := cs; v_ce := ce; v_ai := ai |} in
+  pm_volume_sub 0 (fun ws => Ok ws) 3 2 1 pos frames
+    (args (Some 2) None (Some 2) None (Some (-1)) None false)
+    = Ok (2, 1, [([0; 0; 16], [211; 221]); ([0; 0; 8], [11; 21])]) /\
+  pm_volume_sub 0 (fun ws => Ok ws) 3 2 1 pos frames
+    (args (Some 1) (Some 3) (Some 1) (Some 3) (Some 1) (Some 2) true)
+    = Ok (2, 1, [([0; 0; 16], [211; 221]); ([0; 0; 8], [11; 21])]) /\
+  pm_volume_sub 0 (fun ws => Ok ws) 3 2 1 pos frames
+    (args (Some 0) None None None None None false) = Err "ValueError" /\
+  pm_volume_sub 0 (fun ws => Ok ws) 3 2 1 pos frames
+    (args None (Some 5) None None None None false) = Err "IndexError" /\
+  pm_volume_sub 0 (fun ws => Ok ws) 3 2 1 pos frames
+    (args (Some (-4)) None None None None None false) = Err "IndexError" /\
+  pm_volume_sub 0 (fun ws => Ok ws) 3 2 1 pos frames
+    (args None None (Some 2) (Some 2) None None false) = Err "IndexError" /\
+  pm_volume_sub 0 (fun ws => Ok ws) 3 2 1 pos frames
+    (args None None (Some 4) None None None false) = Err "ValueError" /\
+  pm_volume_sub 0 (fun ws => Ok ws) 3 2 2 pos frames
+    (args None None None None None None false) = Err "RuntimeError".
+Proof. exact vol_example. Qed.
+Print Assumptions C19_example_volume_sub.
+
+(* ValueError of the slice standardiser: exactly a one-based 0 or an empty window; with
+   C19_slice_window and C19_slice_index_error this is the total characterisation *)
+Theorem C19_slice_value_error : forall ss se n ai, 0 <= n ->
+  std_slice ss se n ai = Err "ValueError" <->
+  (ai = false /\ (ss = Some 0 \/ se = Some 0)) \/
+  (arg_ok ai ss /\ arg_ok ai se /\
+   match se with None => True | Some y => - n <= py0 ai y <= n end /\
+   match se with None => n | Some y => pynorm n (py0 ai y) end
+     <= pynorm n (match ss with None => 0 | Some x => py0 ai x end)).
+Proof. exact std_slice_value_error. Qed.
+Print Assumptions C19_slice_value_error.
+
+(* the request without sub-range arguments answers the whole volume, in either convention: the
+   volume of C19_volume_roundtrip is the special case of the sub-range entry point *)
+Theorem C19_volume_default_request : forall R C pos frames sl ai,
+  0 < R -> 0 < C -> pos <> [] -> length frames = length pos ->
+  (forall fr, In fr frames -> length fr = Z.to_nat (R * C)) ->
+  pm_volume pos frames = Ok sl ->
+  pm_volume_sub 0 (fun ws => Ok ws) R C 1 pos frames (vol_all ai) = Ok (R, C, sl).
+Proof. exact volume_sub_default. Qed.
+Print Assumptions C19_volume_default_request.
+
+(* end to end with the real world value mapping: an answered sub-range request on the volume of a
+   stored single-channel integer map yields, at slice p, row r, column c, the value the mapping assigns
+   (maps_to: slope * x + intercept, or the LUT entry, no default involved) to
+   pixel_array[i, r0+r, c0+c] of the plane i whose position the slice carries *)
+Theorem C19_volume_subrange_real_world : forall get N R C w pos m a nr nc out,
+  (forall i r c j, 0 <= get i r c j < 256 ^ Z.of_nat w) -> 0 < R -> 0 < C -> 0 <= N ->
+  length pos = Z.to_nat N ->
+  pm_volume_sub 0%Q (apply_mapping m) R C 1 pos
+    (map (read_frame w R C (pm_bytes get N R C 1 w)) (zrange N)) a = Ok (nr, nc, out) ->
+  exists s e r0 r1 c0 c1,
+    std_slice (v_ss a) (v_se a) N (v_ai a) = Ok (s, e) /\
+    std_axis (v_rs a) (v_re a) R (v_ai a) = Ok (r0, r1) /\
+    std_axis (v_cs a) (v_ce a) C (v_ai a) = Ok (c0, c1) /\
+    nr = r1 - r0 /\ nc = c1 - c0 /\ length out = Z.to_nat (e - s) /\
+    forall p, 0 <= p < e - s ->
+      exists q i vals,
+        nth_error out (Z.to_nat p) = Some (q, vals) /\
+        0 <= i < N /\ nth_error pos (Z.to_nat i) = Some q /\
+        forall r c, 0 <= r < r1 - r0 -> 0 <= c < c1 - c0 ->
+          exists v, nth_error vals (Z.to_nat (r * (c1 - c0) + c)) = Some v /\
+                    maps_to m (get i (r0 + r) (c0 + c) 0) v.
+Proof. exact volume_sub_rw_roundtrip. Qed.
+Print Assumptions C19_volume_subrange_real_world.
+
+Example C19_example_volume_sub_real_world :
+  let get := fun i r c (j : Z) => 100 * i + 10 * r + c in
+  let pos := [[0; 0; 8]; [0; 0; 24]; [0; 0; 16]] in
+  let frames := map (read_frame 1 3 2 (pm_bytes get 3 3 2 1 1)) (zrange 3) in
+  let a := {| v_ss := Some 2; v_se := None; v_rs := Some 2; v_re := None; v_cs := Some (-1);
+              v_ce := None; v_ai := false |} in
+  pm_volume_sub 0%Q (apply_mapping (MLin (1 # 2) 1 0 255)) 3 2 1 pos frames a
+    = Ok (2, 1, [([0; 0; 16], [213 # 2; 223 # 2]%Q); ([0; 0; 8], [13 # 2; 23 # 2]%Q)]) /\
+  pm_volume_sub 0%Q (apply_mapping (MLin (1 # 2) 1 0 100)) 3 2 1 pos frames a = Err "ValueError".
+Proof. exact vol_rw_example. Qed.
+Print Assumptions C19_example_volume_sub_real_world.
